@@ -23,7 +23,7 @@ func init() {
 }
 
 func runC05(ctx *Ctx) {
-	n := ctx.N(500, 5000)
+	n := ctx.N(500, 2000)
 	for _, t := range ctx.types() {
 		t := t
 		if !model.ContainsMap(t.Desc) {
@@ -38,7 +38,7 @@ func runC05(ctx *Ctx) {
 				ctx.Label("discarded: reference decoder rejected generated stream")
 				return nil
 			}
-			return &Case{Type: string(t.Name), Bytes: hexs(b), Args: map[string]string{"reps": fmt.Sprint(ctx.N(20, 100))}}
+			return &Case{Type: string(t.Name), Bytes: hexs(b), Args: map[string]string{"reps": fmt.Sprint(ctx.N(20, 50))}}
 		}, func(c *Case) error { return checkC05(ctx, c) })
 	}
 }
